@@ -19,6 +19,7 @@ type Store struct {
 	sync.Mutex
 	boxes    map[string]*mbox
 	cap      int           // Per-mailbox message cap.
+	maxSize  int64         // Size limit of the whole store in bytes, 0 for none.
 	incoming chan *msgDone // New messages for size enforcer.
 	remove   chan *msgDone // Remove deleted messages from size enforcer.
 	extHost  *extension.Host
@@ -48,6 +49,7 @@ func New(cfg config.Storage, extHost *extension.Host) (storage.Store, error) {
 		}
 		if maxKB > 0 {
 			// Setup enforcer.
+			s.maxSize = maxKB * 1024
 			s.incoming = make(chan *msgDone)
 			s.remove = make(chan *msgDone)
 			go s.maxSizeEnforcer(maxKB * 1024)
@@ -66,6 +68,13 @@ func (s *Store) AddMessage(message storage.Message) (id string, err error) {
 	source, ierr := io.ReadAll(r)
 	if ierr != nil {
 		err = ierr
+		return
+	}
+	if s.maxSize > 0 && int64(len(source)) > s.maxSize {
+		// It could never be retained: the size enforcer would evict it before AddMessage even
+		// returned, announcing its removal before anyone had been told it was stored.
+		err = fmt.Errorf("message of %d bytes exceeds the store size limit of %d bytes",
+			len(source), s.maxSize)
 		return
 	}
 	m := &Message{
